@@ -125,6 +125,17 @@ PLAN = {
         "assumptions": ["race interval 200 ms, client connect timeout 600 ms, slack 350 ms on elapsed time", "which accepting address wins a race is left open by the contract"],
         "replay_runner": "happy", "replay_trace": "Trace_Happy",
     },
+    "C14": {
+        "mc": [],
+        "families": [{"gen": ("tlc", {"name": "tls-matrix", "tla": "MC_Tls.tla", "cfg": "MC_Tls.cfg", "workers": 4}),
+                      "runner": "tls", "trace": "Trace_Tls", "threads": 8, "budget_ms": 60000},
+                     {"gen": ("tlc", {"name": "tls-matrix-rustls", "tla": "MC_Tls.tla", "cfg": "MC_Tls.cfg", "workers": 4}),
+                      "runner": "tls", "trace": "Trace_Tls", "threads": 8, "budget_ms": 60000, "crate": "harness-rustls"}],
+        "crates": ["harness", "harness-rustls"],
+        "rule": "acceptance table enumerated by TLC: {issued by an added private CA, self-signed, unknown issuer} x {valid, expired} x {name matches, differs} x accept_invalid_certs x accept_invalid_hostnames x root added x {direct, through a CONNECT tunnel, https proxy} x flag set on {request, session, sibling request}; every row is a real handshake against a local TLS server presenting a certificate minted at start-up; both directions are judged (no unauthenticated success, and each waiver really waives)",
+        "assumptions": ["cryptography and X.509 path building are black boxes", "'chains to a trusted root' is exercised through explicitly added roots only (no publicly trusted CA offline)", "both TLS back ends (native-tls and rustls) are separate harness binaries because the back ends are mutually exclusive cargo features"],
+        "replay_runner": "tls", "replay_trace": "Trace_Tls",
+    },
     "C15": {
         "mc": [{"name": "prepared-fields-reader", "tla": "MultipartReader.tla", "cfg": "MultipartReader.cfg", "workers": 8}],
         "families": [fam("mpart", runner="mpart", trace="Trace_Multipart")],
